@@ -248,10 +248,32 @@ def _last_fault(res: S.CaseResult) -> tuple[str, Any, int] | None:
     return m, info, k
 
 
+def _writer(method: str, info: Any) -> str:
+    """which kind of store write it was (from the arguments of the call, not from the code that issued it)"""
+    if method == "upd":
+        return "row_upsert"
+    if method == "uhs" and len(info) >= 4:
+        if info[3]:
+            return "unidle_status_write"  # update_handler_status(..., idle_since=None)
+        if info[2]:
+            return "idle_status_write"  # update_handler_status(..., idle_since=<time>)
+        return "status_write"
+    return method
+
+
+def _first_flip(res: S.CaseResult) -> tuple | None:
+    """the first store write that found the row of this run with a terminal status and left it 'running'"""
+    for (rid, before, after, method, info) in res.transitions:
+        if rid == res.run_id and before in S.TERMINAL and after == "running":
+            return before, _writer(method, info)
+    return None
+
+
 def monitor(res: S.CaseResult) -> list[Violation]:
     vs: list[Violation] = []
     case = res.case
-    replay = {k: case.get(k) for k in ("store", "idle_timeout", "backoff", "spec", "fault", "seed", "restart", "restart_fault", "cancel_after_release") if k in case}
+    replay = {k: case.get(k) for k in ("store", "idle_timeout", "backoff", "spec", "fault", "seed", "restart", "restart_fault", "cancel_after_release",
+                                        "race") if k in case}
     replay["actions"] = res.actions
     hist = ""
     if res.replay_case is not None:
@@ -277,7 +299,15 @@ def monitor(res: S.CaseResult) -> list[Violation]:
             and res.record["status"] == "running":
         bad("cancel_reported_but_still_running:" + ("released_handler" if res.released_at_cancel else "active_handler"),
             "cancel_handler answered 'cancelled' but nothing was cancelled: the stored handler still says running")
-    if res.started and res.outcome == "aborted":
+    # --- a stored terminal status is never changed back to running: looked at around EVERY store write of the execution
+    #     (incl. the writes of requests that were still in flight when the run ended, and after the idle timers fired)
+    flip = _first_flip(res) if res.started else None
+    if flip is not None:
+        bad(f"terminal_to_running:{flip[0]}->running:by={flip[1]}",
+            f"the row of the run was stored as {flip[0]} and a later {flip[1]} set it back to running; writes of the run "
+            f"(before->after): {[(b + '->' + a, _writer(m, i)) for (r, b, a, m, i) in res.transitions if r == res.run_id]}; requests in "
+            f"flight (or whose delivery was still queued) when the run ended: {res.late_requests}")
+    if res.started and res.outcome == "aborted" and flip is None:
         seen = False
         for (rid, st_) in res.status_trace:
             if rid == res.run_id and st_ in S.TERMINAL:
@@ -366,7 +396,7 @@ def monitor(res: S.CaseResult) -> list[Violation]:
                 bad("restart_missing_result", "finalised as completed without a result")
     # --- never back to running once terminal (same run), at any point of the execution incl. after the idle timers fired
     seen_terminal = False
-    for (rid, st) in res.status_trace:
+    for (rid, st) in (res.status_trace if flip is None else []):
         if rid != res.run_id:
             continue
         if st in S.TERMINAL:
@@ -464,6 +494,82 @@ def gen_case(rng: random.Random) -> dict:
     elif r < 0.50:
         fault = {"kind": "app_terminal", "k": 1}
     return {"store": store, "idle_timeout": idle, "backoff": backoff, "spec": spec, "fault": fault, "seed": rng.randrange(1 << 30)}
+
+
+def _ask(answer_script: list, sends: list, **kw: Any) -> dict:
+    """human in the loop: the start step asks (InputRequiredEvent), a second step consumes the HumanResponseEvent"""
+    d: dict[str, Any] = {"steps": [{"name": "s00", "accepts": [0], "nw": 1, "retry": None, "script": [["ret", "2"]]},
+                                   {"name": "s03", "accepts": [3], "nw": 1, "retry": None, "script": answer_script}],
+                         "externals": sends}
+    d.update(kw)
+    return d
+
+
+def _send(ty: int = 3, hold: str | None = None, after_quiet: int = 0, k: int | None = None) -> dict:
+    """an external send through the service; hold='end': the (slow) store answers its handler lookup only after the run has ended"""
+    return {"op": "send", "ty": ty, "k": k, "step": None, "after_quiet": after_quiet, "hold": hold}
+
+
+def race_corpus() -> list[dict]:
+    """requests racing with the end of the run on a store whose answers take time (S.FaultStore parking): two clients answer
+    the same question / an event arrives just as the run completes, fails, times out or is cancelled"""
+    specs = {
+        "two_answers": _ask([["ret", "stop"]], [_send(), _send(hold="end")]),
+        "answer_vs_failure": _ask([["fail_always", 4]], [_send(), _send(hold="end")]),
+        "late_event_vs_timeout": _ask([["ret", "stop"]], [_send(hold="end")], timeout=4),
+        "late_event_vs_cancel": _ask([["ret", "stop"]], [_send(hold="end"), {"op": "cancel", "after_quiet": 1}]),
+        "event_vs_gated_completion": _one([["gate"], ["ret", "stop"]], externals=[_send(ty=5, hold="end"), _send(ty=6)]),
+        "unheld": _ask([["gate"], ["ret", "stop"]], [_send(), _send(), _send(after_quiet=1)]),
+    }
+    out = []
+    for name, spec in specs.items():
+        for store in ("memory", "sqlite"):
+            out.append({"store": store, "idle_timeout": 1000.0, "backoff": None, "spec": spec, "fault": None, "seed": 1, "race": True})
+    out.append({"store": "memory", "idle_timeout": None, "backoff": None, "spec": specs["two_answers"], "fault": None, "seed": 1, "race": True})
+    out.append({"store": "memory", "idle_timeout": 1000.0, "backoff": None, "spec": specs["two_answers"],
+                "fault": {"kind": "uhs_terminal", "k": 2}, "seed": 2, "race": True})
+    return out
+
+
+def gen_race_case(rng: random.Random) -> dict:
+    store = "sqlite" if rng.random() < 0.2 else "memory"
+    backoff = rng.choice([None, None, [1.0], [0.1, 0.2, 0.3]])
+    budget = 2 if backoff is None else len(backoff)
+    r = rng.random()
+    if r < 0.45:
+        ans: list = []
+        if rng.random() < 0.4:
+            ans.append(["gate"])
+        ans.append(rng.choice([["ret", "stop"], ["ret", "stop"], ["ret", "stop"], ["fail_always", rng.randint(1, 9)], ["ret", "none"], ["ret", "2"]]))
+        spec = _ask(ans, [])
+        if rng.random() < 0.25:
+            spec["timeout"] = rng.choice([4, 10])
+        tys = [3, 3, 3, 13, 5]
+    elif r < 0.7:
+        spec = specgen.gen_wait_spec(rng)
+        tys = [3, 11, 3, 11, 6]
+    elif r < 0.85:
+        spec = json.loads(json.dumps(rng.choice([v for k, v in outcome_specs().items() if k in
+                                                 ("cancel", "cancel_vs_completion", "timeout", "idle_then_cancel", "success_after_retry")])))
+        tys = [5, 6, 3, 11]
+    else:
+        spec = specgen.gen_spec(rng, allow_sync=False)
+        tys = [3, 11, 5, 6, 7]
+    ext = [e for e in spec.get("externals", []) if e["op"] in ("send", "cancel")]
+    for e in ext:
+        if e["op"] == "send" and rng.random() < 0.4:
+            e["hold"] = "end"
+    for _ in range(rng.randint(1, 3)):
+        ext.append(_send(ty=rng.choice(tys), hold="end" if rng.random() < 0.5 else None, after_quiet=rng.randint(0, 2), k=rng.choice([None, 1, 2])))
+    if rng.random() < 0.15:
+        ext.append({"op": "cancel", "after_quiet": rng.randint(0, 3)})
+    rng.shuffle(ext)
+    spec["externals"] = ext
+    idle = rng.choice([1000.0, 1000.0, 1000.0, 1000.0, None, 2.0, 5.0])
+    fault = None
+    if budget and rng.random() < 0.2:
+        fault = {"kind": "uhs_terminal", "k": rng.randint(1, budget)}
+    return {"store": store, "idle_timeout": idle, "backoff": backoff, "spec": spec, "fault": fault, "seed": rng.randrange(1 << 30), "race": True}
 
 
 def history_corpus() -> list[dict]:
@@ -568,6 +674,10 @@ def _search(env: Env, out: Outcome, n: int) -> None:
         out.violations += monitor(run_one(case, "corpus"))
     for case in history_corpus():
         run_hist(case, "corpus")
+    for case in race_corpus():
+        res = run_one(case, "race")
+        out.count("race:late_requests", len(res.late_requests))
+        out.violations += monitor(res)
     for case in restart_cases():
         res = run_one(case, "restart")
         out.count(f"run:restart:{res.outcome}:{res.record and res.record['status']}->{res.record_restart and res.record_restart['status']}")
@@ -582,6 +692,15 @@ def _search(env: Env, out: Outcome, n: int) -> None:
     # generated histories on one runtime instance (every write within its own budget)
     for _ in range(max(1, n // 8)):
         run_hist(gen_history(rng), "gen")
+    # generated races: external requests against a slow store (lookups answered late, un-idle writes queued), the scheduler
+    # decides what overtakes what; stickiness is judged around every store write
+    for _ in range(max(1, n // 3)):
+        case = gen_race_case(rng)
+        res = run_one(case, "race")
+        out.count("race:late_requests", len(res.late_requests))
+        out.count("race:unidle_write_on_terminal_row", sum(1 for (r, b, a, m, i) in res.transitions
+                                                             if r == res.run_id and b in S.TERMINAL and m == "uhs" and i[3]))
+        out.violations += monitor(res)
     # generated stream (steered away from the known triggers)
     for _ in range(n):
         case = gen_case(rng)
